@@ -65,9 +65,13 @@ fn fill(fd: i32) {
 pub fn build(p: CP) -> Scenario<Arc<CS>> {
     let pp = p.clone();
     let setup = move || {
-        fresh_registry(&[(S1, Disp::Ignore), (S2, Disp::Ignore)]);
+        fresh_registry(&[(S1, Disp::Ignore), (S2, Disp::Ignore), (libc::SIGRTMIN() + 3, Disp::Ignore)]);
         let flag = Arc::new(AtomicBool::new(false));
         let cond = Arc::new(AtomicBool::new(false));
+        // armed conditional default on a signal the default-action table does not list: the library
+        // refuses it (then the deliveries below meet an ignored signal); if it ever accepts it, the
+        // delivery runs that action
+        let _ = signal_hook::flag::register_conditional_default(libc::SIGRTMIN() + 3, Arc::new(AtomicBool::new(true)));
         let mut keep: Vec<Box<dyn std::any::Any + Send + Sync>> = Vec::new();
         let mut ids = Vec::new();
         ids.push(signal_hook::flag::register(S1, flag.clone()).unwrap());
@@ -180,6 +184,9 @@ pub fn build(p: CP) -> Scenario<Arc<CS>> {
         body: Box::new(move |_s: &Arc<CS>| {
             for k in 0..n {
                 sched::raise(if mutator == 5 && k % 2 == 0 { S2 } else { S1 });
+            }
+            if mutator == 0 {
+                sched::raise(libc::SIGRTMIN() + 3);
             }
         }),
         nest_signals: vec![],
